@@ -4,6 +4,7 @@ import (
 	"bytes"
 	"fmt"
 	"math/big"
+	"strings"
 
 	"filippo.io/edwards25519"
 	"filippo.io/edwards25519/field"
@@ -56,7 +57,7 @@ func (p ptIn) point() *edwards25519.Point {
 		return q
 	}
 	X, Y, Z, T := q.ExtendedCoordinates()
-	raw := alpha.PointRaw(q)
+	raw := alpha.PointLimbs(q)
 	el := []*field.Element{X, Y, Z, T}
 	m := flipMasks[p.Flip]
 	for i := 0; i < 4; i++ {
@@ -347,13 +348,40 @@ type ptEncCase struct {
 }
 
 // viaForms lists operation-produced representations of the same point.
-var viaForms = []string{"direct", "Add(P-B,B)", "Subtract(P+B,B)", "Negate(Negate)", "ScalarMult(1)", "VarTimeMultiScalarMult([1])", "Add(P,identity)", "Decode", "MultiScalarMult([1])", "VarTimeDouble(1,P,0)", "Add(P-T,T)"}
+var viaForms = []string{"used-receiver:Negate", "used-receiver:Add", "used-receiver:SetExtendedCoordinates", "used-receiver:Set", "used-receiver:ScalarMult", "used-receiver:Subtract", "direct", "Add(P-B,B)", "Subtract(P+B,B)", "Negate(Negate)", "ScalarMult(1)", "VarTimeMultiScalarMult([1])", "Add(P,identity)", "Decode", "MultiScalarMult([1])", "VarTimeDouble(1,P,0)", "Add(P-T,T)"}
 
 func viaPoint(c ptEncCase) *edwards25519.Point {
 	pm := c.P.model()
 	p := c.P.point()
 	B := ref.Base()
 	one := mkScalar(big.NewInt(1))
+	// receivers that already went through a decode (Z = 1 representation,
+	// whatever hints a tree may cache about it) before being overwritten
+	if strings.HasPrefix(c.Via, "used-receiver:") {
+		ge := ref.Encode(ref.Mul(big.NewInt(7), B))
+		r, err := new(edwards25519.Point).SetBytes(ge[:])
+		if err != nil {
+			return nil
+		}
+		switch strings.TrimPrefix(c.Via, "used-receiver:") {
+		case "Negate":
+			return r.Negate(alpha.MakePoint(ref.Neg(pm), c.P.Form))
+		case "Add":
+			return r.Add(alpha.MakePoint(ref.Sub(pm, B), c.P.Form), alpha.MakePoint(B, (c.P.Form+3)%8))
+		case "Subtract":
+			return r.Subtract(alpha.MakePoint(ref.Add(pm, B), c.P.Form), alpha.MakePoint(B, (c.P.Form+5)%8))
+		case "SetExtendedCoordinates":
+			X, Y, Z, T := p.ExtendedCoordinates()
+			if _, err := r.SetExtendedCoordinates(X, Y, Z, T); err != nil {
+				return nil
+			}
+			return r
+		case "Set":
+			return r.Set(p)
+		case "ScalarMult":
+			return r.ScalarMult(one, p)
+		}
+	}
 	switch c.Via {
 	case "direct":
 		return p
